@@ -9,10 +9,47 @@
 #include "c17_guard.h"
 #include "vh_stir.h"
 #include "stir/KeyParser.h"
+#include "stir/TextWriter.h"
+#include "stir/DiscretisedDensity.h"
+#include "stir/DynamicDiscretisedDensity.h"
+#include "stir/modelling/ParametricDiscretisedDensity.h"
+#include "stir/modelling/KineticModel.h"
+#include "stir/DataProcessor.h"
+#include "stir/recon_buildblock/ForwardProjectorByBin.h"
+#include "stir/recon_buildblock/BackProjectorByBin.h"
+#include "stir/recon_buildblock/ProjectorByBinPair.h"
+#include "stir/recon_buildblock/ProjMatrixByBin.h"
+#include "stir/recon_buildblock/GeneralisedObjectiveFunction.h"
+#include "stir/recon_buildblock/GeneralisedPrior.h"
+#include "stir/recon_buildblock/Reconstruction.h"
+#include "stir/recon_buildblock/BinNormalisation.h"
+#include "stir/recon_buildblock/ProjDataRebinning.h"
+#include "stir/scatter/ScatterSimulation.h"
+#include "stir/Shape/Shape3D.h"
+#include "stir/data/SinglesRates.h"
+#include "stir/IO/OutputFileFormat.h"
 #include <iostream>
 #include <sstream>
 
 using namespace stir;
+
+// STIR's info/warning/error text goes nowhere; after `limit` warnings inside one item the writer throws
+// (this is what ends the endless "asking all questions again" loop of ParsingObject::ask_parameters
+// for classes whose defaults do not pass their own post_processing)
+struct QuietWriter : public aTextWriter {
+  mutable long count = 0;
+  long limit = -1;
+  void write(const char*) const override {
+    if (limit >= 0 && ++count > limit) throw std::runtime_error("c17: warning limit reached");
+  }
+};
+static QuietWriter quiet_writer;
+static void install_quiet_writer() {
+  TextWriterHandle h;
+  h.set_information_channel(&quiet_writer);
+  h.set_warning_channel(&quiet_writer);
+  h.set_error_channel(&quiet_writer);
+}
 
 // ------------------------------------------------------------------------------------ part (a)
 // the fixed key map (mirrored by TestKM / TestVars in spec/KeyParser.tla)
@@ -80,11 +117,88 @@ static int replay(const std::string& genpath, const std::string& outpath) {
   return 0;
 }
 
+
+// ------------------------------------------------------------------------------------ part (c)
+struct RTItem { std::string registry, name; std::function<std::string()> run; };
+
+template <class Root>
+static void add_registry(std::vector<RTItem>& items, const std::string& registry) {
+  std::ostringstream names;
+  Root::list_registered_names(names);
+  std::istringstream in(names.str());
+  std::string name;
+  while (std::getline(in, name)) {
+    if (name.empty() || name == "None") continue;
+    items.push_back({ registry, name, [name]() {
+                       // default construction: the interactive route with an empty standard input leaves every default in place
+                       std::istringstream empty_in;
+                       std::ostringstream sink;
+                       auto* old_in = std::cin.rdbuf(empty_in.rdbuf());
+                       auto* old_out = std::cout.rdbuf(sink.rdbuf());
+                       std::string t1, t2, why;
+                       bool constructed = false, parsed = false;
+                       shared_ptr<Root> o1;
+                       quiet_writer.count = 0; quiet_writer.limit = 200;
+                       if (vh::threw([&] { o1.reset(Root::read_registered_object(0, name)); }, &why)) o1.reset();
+                       quiet_writer.limit = -1;
+                       std::cin.rdbuf(old_in);
+                       std::cin.clear();
+                       if (o1 && !vh::threw([&] { t1 = o1->parameter_info(); }, &why)) constructed = true;
+                       if (constructed) {
+                         why.clear();
+                         shared_ptr<Root> o2;
+                         std::istringstream text(t1);
+                         const bool th = vh::threw([&] { o2.reset(Root::read_registered_object(&text, name)); }, &why);
+                         if (!th && o2 && !vh::threw([&] { t2 = o2->parameter_info(); }, &why)) parsed = true;
+                       }
+                       std::cout.rdbuf(old_out);
+                       return std::string("\"constructed\":") + (constructed ? "true" : "false") + ",\"parsed\":" + (parsed ? "true" : "false")
+                              + ",\"why\":" + c17::jstr(why.substr(0, 200)) + ",\"t1\":" + c17::jstr(t1) + ",\"t2\":" + c17::jstr(t2);
+                     } });
+  }
+}
+
+static int roundtrip(const std::string& outpath) {
+  std::vector<RTItem> items;
+  typedef DiscretisedDensity<3, float> DD;
+  typedef ParametricVoxelsOnCartesianGrid PD;
+  add_registry<ProjectorByBinPair>(items, "ProjectorByBinPair");
+  add_registry<ForwardProjectorByBin>(items, "ForwardProjectorByBin");
+  add_registry<BackProjectorByBin>(items, "BackProjectorByBin");
+  add_registry<ProjMatrixByBin>(items, "ProjMatrixByBin");
+  add_registry<BinNormalisation>(items, "BinNormalisation");
+  add_registry<DataProcessor<DD>>(items, "DataProcessor<DiscretisedDensity<3,float>>");
+  add_registry<GeneralisedObjectiveFunction<DD>>(items, "GeneralisedObjectiveFunction<DiscretisedDensity<3,float>>");
+  add_registry<GeneralisedPrior<DD>>(items, "GeneralisedPrior<DiscretisedDensity<3,float>>");
+  add_registry<Reconstruction<DD>>(items, "Reconstruction<DiscretisedDensity<3,float>>");
+  add_registry<DataProcessor<PD>>(items, "DataProcessor<ParametricVoxelsOnCartesianGrid>");
+  add_registry<GeneralisedObjectiveFunction<PD>>(items, "GeneralisedObjectiveFunction<ParametricVoxelsOnCartesianGrid>");
+  add_registry<GeneralisedPrior<PD>>(items, "GeneralisedPrior<ParametricVoxelsOnCartesianGrid>");
+  add_registry<Reconstruction<PD>>(items, "Reconstruction<ParametricVoxelsOnCartesianGrid>");
+  add_registry<Shape3D>(items, "Shape3D");
+  add_registry<OutputFileFormat<DD>>(items, "OutputFileFormat<DiscretisedDensity<3,float>>");
+  add_registry<OutputFileFormat<PD>>(items, "OutputFileFormat<ParametricVoxelsOnCartesianGrid>");
+  add_registry<OutputFileFormat<DynamicDiscretisedDensity>>(items, "OutputFileFormat<DynamicDiscretisedDensity>");
+  add_registry<KineticModel>(items, "KineticModel");
+  add_registry<ProjDataRebinning>(items, "ProjDataRebinning");
+  add_registry<ScatterSimulation>(items, "ScatterSimulation");
+  add_registry<SinglesRates>(items, "SinglesRates");
+  auto head = [&](long k) { return "{\"e\":\"RT\",\"registry\":" + c17::jstr(items[k].registry) + ",\"name\":" + c17::jstr(items[k].name) + ","; };
+  auto item = [&](long k) { return head(k) + "\"abort\":\"\"," + items[k].run() + "}"; };
+  auto dead = [&](long k, const std::string& kind) {
+    return head(k) + "\"abort\":" + c17::jstr(kind) + ",\"constructed\":false,\"parsed\":false,\"why\":\"\",\"t1\":\"\",\"t2\":\"\"}";
+  };
+  c17::run_guarded((long)items.size(), outpath, 3, item, dead);
+  return 0;
+}
+
 int main(int argc, char** argv) {
   vh::quiet();
+  install_quiet_writer();
   if (argc < 2) return 2;
   const std::string mode = argv[1];
   if (mode == "replay" && argc >= 4) return replay(argv[2], argv[3]);
+  if (mode == "roundtrip" && argc >= 3) return roundtrip(argv[2]);
   fprintf(stderr, "usage: c17_keyparser replay|hdr|roundtrip ...\n");
   return 2;
 }
